@@ -96,9 +96,23 @@ def check_consume(ctx, fx, cfg, floor, RULE="R18.1"):
                         how.add("ret")
                 ctx.require(bool(how), RULE, "consumed:%s@%s" % (s, cfg), "the handle returned by spawn_actor is neither detached nor handed to the caller", fn=s, site=t["l"], detail=sorted(how))
                 # what is spawned is the loop created from the actor in this function
-                rs = b.origins(t["args"][0])
                 ph = loops.pair_helpers(fx)
-                ok = bool(rs) and all(o.kind == "call" and o.proj[:1] == ("f0",) and ((b.call_at(o).get("callee") or "").startswith("environment::Environment::<A, R>::create_loop") or (b.call_at(o).get("resolved") or b.call_at(o).get("callee")) in ph) for o in rs)
+
+                def is_loop(body_, fn_, operand, depth=0):
+                    rs_ = body_.origins(operand)
+                    if not rs_:
+                        return False
+                    for o in rs_:
+                        if o.kind == "call" and o.proj[:1] == ("f0",) and ((body_.call_at(o).get("callee") or "").startswith("environment::Environment::<A, R>::create_loop") or (body_.call_at(o).get("resolved") or body_.call_at(o).get("callee")) in ph):
+                            continue
+                        if o.kind == "arg" and not o.proj and depth < 2 and fn_["kind"] in ("fn", "assoc_fn") and fn_.get("vis") != "pub" and not fn_.get("impl_trait"):
+                            # a private helper that is handed the loop (`launch::<S, _, _>(event_loop, addr)`): every caller must hand over one
+                            callers = [(g_, t_) for g_, _bi2, t_ in graph.all_calls(fx, lambda x, _n=fn_["def"]: (x.get("resolved") or x.get("callee")) == _n)]
+                            if callers and all(o.site - 1 < len(t_["args"]) and is_loop(ctx.body(fx, g_), g_, t_["args"][o.site - 1], depth + 1) for g_, t_ in callers):
+                                continue
+                        return False
+                    return True
+                ok = is_loop(b, f, t["args"][0])
                 ctx.require(ok, RULE, "spawns-its-loop:%s@%s" % (s, cfg), "what is spawned is not the event loop created here", fn=s, site=t["l"])
 
 
